@@ -80,6 +80,10 @@ def operators(tier):
         out.append(_t(f"export function f(float{n} a, int{n} b) -> float{n} {{ return a + b; }}", f"float{n} + int{n}", ["op", "promote"]))
         out.append(_t(f"export function f(int{n} a, float s) -> float{n} {{ return a * s; }}", f"int{n} * float", ["op", "promote", "scale"], small=True))
         out.append(_t(f"export function f(float{n} a, int s) -> float{n} {{ return a / s; }}", f"float{n} / int", ["op", "promote", "scale"], small=True))
+        out.append(_t(f"export function f(int{n} a, float s) -> float{n} {{ return a / s; }}", f"int{n} / float", ["op", "promote", "scale"], small=True))
+        out.append(_t(f"export function f(int{n} a) -> float{n} {{ return a / 2.0; }}", f"int{n} / float literal", ["op", "promote", "scale"]))
+        out.append(_t(f"export function f(float s, int{n} a) -> float{n} {{ return s * a; }}", f"float * int{n}", ["op", "promote", "scale"], small=True))
+        out.append(_t(f"export function f(int{n} a, float{n} b) -> float{n} {{ return a - b; }}", f"int{n} - float{n}", ["op", "promote"]))
     for n in (3, 4):
         M = f"float{n}x{n}"
         for op in ("+", "-"):
